@@ -244,6 +244,18 @@ pub fn programs(thorough: bool) -> Vec<Value> {
       ps.push(json!({ "mappings": ms }));
     }
   } } }
+  // (1b) full-length letters: all printable characters in sliding windows of every row's length (positions and characters jointly)
+  let printable: Vec<char> = (33u8..127).map(|b| b as char).collect();
+  for (row, len) in [("`", 13usize), ("1", 12), ("Q", 12), ("A", 11), ("Z", 10)] {
+    for start in 0..printable.len() {
+      let letters: String = (0..len).map(|i| printable[(start + i * 7) % printable.len()]).collect();
+      for (di, d) in defs.iter().enumerate().take(3) {
+        let from = if di == 0 { json!({ "row": row }) } else { json!(["@a", { "row": row }]) };
+        let mut ms = d.clone(); ms.push(json!({"from": from, "to": {"letters": letters}, "repeat": {"Special": {"keys": {"letters": letters.chars().rev().collect::<String>()}, "delay_ms": 3, "interval_ms": 4}}}));
+        ps.push(json!({ "mappings": ms }));
+      }
+    }
+  }
   // (2) single mappings: modifiers x outputs x repeat forms x absorbing forms, with neighbours
   let modsets: Vec<Value> = vec![json!([]), json!(["@a"]), json!(["CAPSLOCK"]), json!(["@a", "CAPSLOCK"]), json!(["@a", "@b"]), json!(["@b", "TAB", "@a"]), json!(["TAB", "@a", "F16"]), json!(["@a", "@b", "@c"]), json!(["@c", "@a", "F16", "@b"])];
   let tos: Vec<Value> = vec![json!([]), json!("X"), json!(["X"]), json!(["@a", "X"]), json!(["LEFTCTRL", "@a", "X"]), json!(["@b", "@a", "X"]), json!(["@c", "@a", "X"])];
